@@ -91,6 +91,10 @@ func (v *Value) UnmarshalNBT(tagType byte, r nbt.DecoderReader) error {
 		if t == nbt.TagEnd && length > 0 {
 			return errors.New("non-empty list of TAG_End")
 		}
+		if t > nbt.TagLongArray {
+			// the element decoder is only asked per element: an empty list has to be checked here
+			return fmt.Errorf("unknown list element type %#02x", t)
+		}
 
 		v.list = v.list[:0]
 
